@@ -53,8 +53,8 @@ def handleObj (tree : Obj) (impl : String) : String × String :=
           (if hasRefLike wantTree then ["reflike"] else []) ++
           (if hasBigReal tree then ["bigreal"] else []) ++
           (if hasFarRef tree then ["farref"] else [])
-        let c2 : List String :=
-          (if hasCRString tree then ["cr"] else [])
+        -- no defect class is left on the independent-reader side: a T2 failure is never explained
+        let c2 : List String := []
         let explained := (t1 || !c1.isEmpty) && (t2 || !c2.isEmpty) && model == impl
         let halves := joinPlus ((if t1 then [] else ["library-parser"]) ++ (if t2 then [] else ["independent-reader"]))
         if explained then
